@@ -265,7 +265,6 @@ def affine_maps(draw, max_stretch=4.0):
     return {"A": A, "t": t}
 
 
-@st.composite
 def displacements(n_nodes, step=None):
     """n_nodes displacement vectors, |component| <= PERT_MAX.  With ``step`` the components are integer multiples of it
     (either exactly zero or at least ``step``): no node is *almost* in the plane of its neighbours, so a triangulation of the
